@@ -180,12 +180,27 @@ def family():
         # first failure stops the run (chain)
         dict(tasks=[T('ok', task_dep=[1]), T('fail', task_dep=[2], td=True, td_out=True, td_err=True), T('ok', td=True, td_out=True)], cont=False),
     ]
+    # dependency cycles, the two ways the dispatcher finds one: on one ancestor chain (_gen_node) and as nodes that
+    # all wait for each other with nothing executing ("hold on" / cyclic_hold_error); a task that runs before
+    # runs first is only put in front under the serial runner (under a parallel runner what it has reported by the
+    # time the error is raised depends on the schedule)
+    cyc = [
+        dict(tasks=[T('ok', td=True, td_out=True), T('ok', task_dep=[2]), T('ok', task_dep=[1])], cont=True, cycle=True, serial_only=True),
+        dict(tasks=[T('ok', td=True, td_out=True), T('ok', task_dep=[2, 3]), T('ok', task_dep=[3]), T('ok', task_dep=[2])],
+             cont=True, cycle=True, serial_only=True),
+        dict(tasks=[T('ok', task_dep=[1]), T('ok', task_dep=[0])], cont=True, cycle=True),
+        dict(tasks=[T('ok', task_dep=[1, 2]), T('ok', task_dep=[2]), T('ok', task_dep=[1])], cont=True, cycle=True),
+        dict(tasks=[T('ok', task_dep=[1, 2]), T('ok', setup=[2]), T('ok', task_dep=[1])], cont=False, cycle=True),
+    ]
     out = []
-    for b in base:
+    for b in base + cyc:
         for rep in REPORTERS:
             for fl in FLAVOURS:
+                if b.get('serial_only') and fl != 'serial':
+                    continue
                 sc = dict(n=len(b['tasks']), tasks=[dict(t, task_dep=list(t['task_dep']), setup=list(t['setup'])) for t in b['tasks']],
-                          cont=b['cont'], flavour=fl, reporter=rep, fv=0, cycle=False, selected=list(range(len(b['tasks']))), act='py')
+                          cont=b['cont'], flavour=fl, reporter=rep, fv=0, cycle=b.get('cycle', False),
+                          selected=list(range(len(b['tasks']))), act='py')
                 normalise(sc)
                 out.append(sc)
     return out
